@@ -9,9 +9,10 @@ ASSUMPTIONS = [
     'connect-fail kinds: no keys while the device demands authentication, a non-token AUTH challenge, a silent device (transport timeout), the transport refusing to connect',
     'local files live in the virtual file system; "no local file created" = no open() call on it during the operation',
 ]
+GEN = ['gen_create', 'gen_step', 'op_unanswered']
 OPS = ['shell', 'exec_out', 'root', 'reboot', 'streaming_shell', 'list', 'stat', 'pull_path', 'pull_bytesio', 'push_path', 'push_dir', 'push_bytesio',
        'list_empty', 'stat_empty', 'pull_empty', 'push_empty']
-ALPHABET = ['connect_ok', 'fail_nokeys', 'fail_badauth', 'fail_timeout', 'fail_refused', 'close'] + OPS
+ALPHABET = ['connect_ok', 'fail_nokeys', 'fail_badauth', 'fail_timeout', 'fail_refused', 'close'] + OPS + GEN
 SMALL = ['connect_ok', 'fail_nokeys', 'fail_refused', 'close', 'shell', 'pull_path', 'push_dir']
 BOUNDS = {
     'quick': 'all sequences of length <= 3 over the %d-letter alphabet %s; sync+async' % (len(ALPHABET), ALPHABET),
@@ -48,6 +49,27 @@ def _do(ctx, w, st, mods, letter, k):
         return o, 'connect_fail'
     if letter == 'close':
         return w.try_call('close'), 'close'
+    if letter == 'gen_create':
+        # calling streaming_shell() only creates the generator: nothing may happen yet
+        w.pending_gen = w.drv.iterate(w.dev.streaming_shell('id', decode=False))
+        from .common import Outcome
+        return Outcome(value=None), 'noop'
+    if letter == 'gen_step':
+        g = getattr(w, 'pending_gen', None)
+        from .common import Outcome
+        if g is None:
+            return Outcome(value=None), 'noop'
+        w.pending_gen = None
+        try:
+            return Outcome(value=list(g)), 'op'
+        except Exception as e:
+            return Outcome(exc=e), 'op'
+    if letter == 'op_unanswered':
+        # the device does not answer the next OPEN: the operation fails, but the connection state must not change
+        dev.silent = True
+        o = w.try_call('shell', 'id', decode=False, read_timeout_s=1)
+        dev.silent = False
+        return o, 'unanswered'
     if letter in ('shell', 'exec_out'):
         return w.try_call(letter, 'id', decode=False), 'op'
     if letter in ('root', 'reboot'):
@@ -127,6 +149,18 @@ def h_history(ctx, mods, shape):
         elif kind == 'close':
             ctx.check(o.ok, tag + 'close() completes', detail=repr(o))
             connected = False
+        elif kind == 'noop':
+            ctx.check(sent == 0, tag + 'creating a streaming_shell generator writes nothing', detail='%d writes' % sent)
+        elif kind == 'unanswered':
+            if connected:
+                ctx.check(not o.ok, tag + 'an operation the device never answers fails', detail=repr(o))
+                # the stale OPEN of this attempt must not confuse later operations: drop the half-open stream on the device side
+                st.dev.streams = core.SymDict()
+                for s_ in st.dev.all_streams:
+                    s_.acks, s_.data = [], []
+            else:
+                ctx.check((not o.ok) and type(o.exc) is exc.AdbConnectionError, tag + 'an operation on a device that is not connected raises AdbConnectionError', detail=repr(o))
+                ctx.check(sent == 0, tag + 'no byte is written to the transport while not connected', detail='%d writes' % sent)
         elif kind == 'empty':
             ctx.check((not o.ok) and type(o.exc) is exc.DevicePathInvalidError, tag + 'an empty device path raises DevicePathInvalidError', detail=repr(o))
             ctx.check(sent == 0, tag + 'no byte is written to the transport for an empty device path', detail='%d writes' % sent)
